@@ -20,8 +20,8 @@
       Over the reals.  The gamma callback is handed the list of members; the premise says it does
       not depend on their order (true of the default and of any gamma computed from
       (c, k, mu, sigma^2, rank) and the size or multiset of the team).
-    - Not proved here: a witness that the partial-pairing models are NOT equivariant when tied teams
-      are reordered (DESIGN's [C04_partial_tied_refuted]); the property excludes that case.
+    - [C04_partial_tied_refuted]: a witness that Bradley-Terry partial is NOT equivariant when two
+      tied teams are swapped - the reason for the exception in the property (not a finding).
 
     The "to floating-point accuracy" clause is decided by the monitor (re-ordered sums round
     differently); the theorems over R are the exact statement. *)
@@ -85,6 +85,22 @@ Theorem C04_players : forall (Phi Phiinv : R -> R) (k : kind) (P : params R) (ta
           (combine teams' (@rate_core R (RNum Phi Phiinv) k P tau limit teams' keys)).
 Proof. intros; now apply C04L.C04_players. Qed.
 Print Assumptions C04_players.
+
+(** the exception is needed: under Bradley-Terry partial pairing, swapping two TIED teams changes
+    the posterior of one of them (not a finding: the property excludes this case).  Teams a, b, c
+    of one player each, equal priors (mu 25, sigma 1), beta = 1, tau = 0, ranks 1, 1, 2:
+    listed [a; b; c] the neighbours of a are {b}; listed [b; a; c] they are {b, c}. *)
+Theorem C04_partial_tied_refuted : forall (Phi Phiinv : R -> R),
+  let P : params R := mkParams 1 (1 / 10000) (fun c _ _ ss _ _ => sqrt ss / c) in
+  let a := mkRating 25 1 1 NmNone in let b := mkRating 25 1 2 NmNone in let c := mkRating 25 1 3 NmNone in
+  let ks := [(1, 0); (1, 0); (2, 0)]%Z in
+  Permutation (combine ks [[a]; [b]; [c]]) (combine ks [[b]; [a]; [c]]) /\
+  exists ra ra',
+    nth_error (@rate_core R (RNum Phi Phiinv) BTP P 0 false [[a]; [b]; [c]] (Some ks)) 0 = Some [ra] /\
+    nth_error (@rate_core R (RNum Phi Phiinv) BTP P 0 false [[b]; [a]; [c]] (Some ks)) 1 = Some [ra'] /\
+    r_mu ra <> r_mu ra'.
+Proof. exact C04L.partial_tied_refuted. Qed.
+Print Assumptions C04_partial_tied_refuted.
 
 (** non-vacuity: three teams, the first and the last tied; the second presentation swaps the
     first two teams (and their ranks) and the two members of the two-player team *)
